@@ -21,6 +21,8 @@ import numpy as np
 from . import regiongen as G
 from . import c06 as C6
 from .c06 import F, SIZE_KEYS, build_sky, build_wcs, canon_pix, gen_meta, gen_visual, gen_wcs, lonlat, model_sky, parse_model
+from . import c06 as _c06
+_c06.NONDEG_CENTRES = True     # centres stored in hours / radians as well (a reader must not assume degrees)
 from .common import frac
 from .runner import PropertyCheck
 
